@@ -194,8 +194,11 @@ theorem unescapeString_loop1_spec (escaped : Bytes) :
         cases bang
         · simp only [Bool.false_eq_true, if_false]
           by_cases h33 : r = 33
-          · subst h33
-            simp only [Int.natCast_ofNat, decide_true, if_true, beq_self_eq_true]
+          · have h2 : decide ((r : Int) = 33) = true := by
+              have : (r : Int) = 33 := by omega
+              simp [this]
+            have h3 : (r == 33) = true := by simp [h33]
+            simp only [h2, h3, if_true]
             exact ih (k + w) true buf hw2 (by omega)
           · have h2 : ¬ ((r : Int) = 33) := by omega
             have h3 : (r == 33) = false := by simp [h33]
@@ -261,9 +264,37 @@ theorem unescapeString_spec (escaped : Bytes) (fuel : Nat) (hf : escaped.length 
   rw [← h]
   unfold Generated.Module.unescapeString
   congr 1
-  funext r4
-  cases r4 with
-  | ret rv => rfl
-  | next st => obtain ⟨a, b, c⟩ := st; rfl
+
+/-! ### non-vacuity: both sides evaluated on concrete inputs -/
+
+-- "aBc" ↦ "a!bc"
+example : Generated.Module.escapeString 4 [97, 66, 99] = .ok ([97, 33, 98, 99], none) ∧
+    Module.escapeString [97, 66, 99] = some [97, 33, 98, 99] := ⟨rfl, rfl⟩
+-- no upper-case letter: the string itself
+example : Generated.Module.escapeString 4 [97, 98, 99] = .ok ([97, 98, 99], none) ∧
+    Module.escapeString [97, 98, 99] = some [97, 98, 99] := ⟨rfl, rfl⟩
+-- "!" ↦ the internal error
+example : Generated.Module.escapeString 2 [33] = .ok ([], some "internal error: inconsistency in EscapePath") ∧
+    Module.escapeString [33] = none := ⟨rfl, rfl⟩
+-- "é" (two bytes) and the ill-formed byte 0xFF (decoded as U+FFFD) ↦ the internal error
+example : Generated.Module.escapeString 3 [195, 169] = .ok ([], some "internal error: inconsistency in EscapePath") ∧
+    Module.escapeString [195, 169] = none ∧
+    Generated.Module.escapeString 2 [255] = .ok ([], some "internal error: inconsistency in EscapePath") ∧
+    Module.escapeString [255] = none := ⟨rfl, rfl, rfl, rfl⟩
+-- too little fuel is an error, not a wrong answer
+example : Generated.Module.escapeString 3 [97, 66, 99] = .error .fuel := rfl
+
+-- "a!bc" ↦ "aBc"
+example : Generated.Module.unescapeString 5 [97, 33, 98, 99] = .ok ([97, 66, 99], true) ∧
+    Module.unescapeString [97, 33, 98, 99] = some [97, 66, 99] := ⟨rfl, rfl⟩
+-- a trailing "!", an upper-case letter, "!" before a non-letter, a non-ASCII rune, an ill-formed byte: not ok
+example : Generated.Module.unescapeString 2 [33] = .ok ([], false) ∧ Module.unescapeString [33] = none ∧
+    Generated.Module.unescapeString 2 [66] = .ok ([], false) ∧ Module.unescapeString [66] = none ∧
+    Generated.Module.unescapeString 3 [33, 49] = .ok ([], false) ∧ Module.unescapeString [33, 49] = none ∧
+    Generated.Module.unescapeString 3 [195, 169] = .ok ([], false) ∧ Module.unescapeString [195, 169] = none ∧
+    Generated.Module.unescapeString 2 [255] = .ok ([], false) ∧ Module.unescapeString [255] = none :=
+  ⟨rfl, rfl, rfl, rfl, rfl, rfl, rfl, rfl, rfl, rfl⟩
+example : Generated.Module.unescapeString 0 [] = .error .fuel ∧
+    Generated.Module.unescapeString 1 [] = .ok ([], true) ∧ Module.unescapeString [] = some [] := ⟨rfl, rfl, rfl⟩
 
 end ModVerif.TieFnModule
